@@ -606,6 +606,18 @@ def apply_lifts(toks: List[Tok], lifts: List[Lift], rep: Report, fn: str, leafs:
     return toks
 
 
+def find_nested_fn(toks: List[Tok], name: str, where: str) -> Tuple[int, int]:
+    """token range [lo, hi] of the nested item `fn NAME(..) .. { .. }` inside a function body"""
+    for i, t in enumerate(toks):
+        if t.kind == "ident" and t.text == "fn" and i + 2 < len(toks) and toks[i + 1].kind == "ident" and toks[i + 1].text == name \
+                and is_p(toks[i + 2], "(") and i > 0 and toks[i - 1].kind == "punct" and toks[i - 1].text in ("{", "}", ";"):
+            j = i + 2
+            while not is_p(toks[j], "{"):
+                j = match_close(toks, j) + 1 if toks[j].kind == "punct" and toks[j].text in OPEN else j + 1
+            return i, match_close(toks, j)
+    raise Undecided(f"lost anchor: nested fn {name} not found in {where}")
+
+
 def loop_positions(toks: List[Tok]) -> List[Tuple[int, int, int]]:
     """(index of keyword, index of body '{', index of matching '}') for every while/loop/for in order"""
     res = []
@@ -665,6 +677,33 @@ def rule_R7(toks: List[Tok], k: int, rep: Report, fn: str) -> List[Tok]:
            Tok("punct", "{", toks[bo].pos, " "), syn(bind, toks[bo].pos, " ")] + body + \
           [syn(f"{idx} += 1;", toks[bc].pos, " "), toks[bc]]
     rep.rule("R7 for-in-iter loop -> index while loop")
+    return toks[:kw] + new + toks[bc + 1:]
+
+
+def rule_R22(toks: List[Tok], k: int, fld: str, rep: Report, fn: str) -> List[Tok]:
+    """for &X in V.iter().flatten() { B }   (V: Vec<C>, `&C: IntoIterator` iterating C.FIELD -- pinned by an `expect` directive)
+       ->  two nested index loops over V and V[o].FIELD, binding X = V[o].FIELD[i]"""
+    loops = [l for l in loop_positions(toks) if toks[l[0]].text == "for"]
+    if k > len(loops):
+        raise Undecided(f"lost anchor: for loop #{k} in {fn}")
+    kw, bo, bc = loops[k - 1]
+    body = toks[bo + 1:bc]
+    if any(t.kind == "ident" and t.text in ("continue", "break") for t in body) or any(t.kind == "life" for t in body):
+        raise Undecided(f"R22: loop body of for #{k} in {fn} uses break/continue/labels")
+    m = re.fullmatch(r"&(\w+) in (\w+)\.iter\(\)\.flatten\(\)", compact(toks[kw + 1:bo]).replace("&", "&", 1))
+    if not m:
+        raise Undecided(f"R22: unsupported for header `{compact(toks[kw + 1:bo])}` in {fn}")
+    x, v = m.group(1), m.group(2)
+    if any(t.kind == "ident" and t.text == v for t in body):
+        raise Undecided(f"R22: loop body mentions {v}")
+    pos = toks[kw].pos
+    o, i = f"fl_o__{k}", f"fl_i__{k}"
+    new = [syn(f"let mut {o}: usize = 0;", pos, toks[kw].ws), Tok("ident", "while", pos, " "), syn(f"{o} < {v}.len()", pos, " "),
+           Tok("punct", "{", pos, " "), syn(f"let mut {i}: usize = 0;", pos, " "), Tok("ident", "while", pos, " "),
+           syn(f"{i} < {v}[{o}].{fld}.len()", pos, " "), Tok("punct", "{", toks[bo].pos, " "),
+           syn(f"let {x} = {v}[{o}].{fld}[{i}];", toks[bo].pos, " ")] + body + \
+          [syn(f"{i} += 1;", toks[bc].pos, " "), Tok("punct", "}", toks[bc].pos, " "), syn(f"{o} += 1;", toks[bc].pos, " "), toks[bc]]
+    rep.rule("R22 for-in-iter().flatten() over a vector of point lists -> two nested index loops")
     return toks[:kw] + new + toks[bc + 1:]
 
 
@@ -1176,10 +1215,29 @@ class UnitBuilder:
         self.out.toks(out, s, f"const {name}")
         self.out.text("\n")
 
+    def check_expect(self, rel: str, header: Optional[str], name: str, want: str):
+        """a function of /repo that a rewrite rule relies on must still have the pinned body"""
+        s = self.source(rel)
+        _, it = s.find_fn(header, name)
+        got = compact(it.toks[it.body_open:])
+        if got != compact(lex(want)):
+            raise Undecided(f"pinned text changed: {(header + ' :: ') if header else ''}{name} in {rel} reads `{got}`, expected `{compact(lex(want))}`")
+        self.rep.sources[rel] = s.sha
+        self.rep.rule("pinned body checked (expect)")
+
     # -- functions ---------------------------------------------------------
     def emit_fn(self, fs: FnSpec):
         s = self.source(fs.source)
-        imp, it = s.find_fn(fs.header, fs.name)
+        if fs.nested_in:
+            # R21: a nested fn item cannot capture anything from the enclosing function, so at module level it means the same
+            _, parent = s.find_fn(None, fs.nested_in)
+            lo, hi = find_nested_fn(parent.toks, fs.name, f"fn {fs.nested_in} of {fs.source}")
+            sub = parent.toks[lo:hi + 1]
+            bo_n = next(i for i, t in enumerate(sub) if is_p(t, "{") and match_close(sub, i) == len(sub) - 1)
+            imp, it = None, Item("fn", fs.name, [], sub, sub[0].pos, sub[-1].end, body_open=bo_n)
+            self.rep.rule("R21 nested fn item emitted at module level")
+        else:
+            imp, it = s.find_fn(fs.header, fs.name)
         fnq = fs.qual
         self.cut(s, it, fnq)
         for a in it.attrs:
@@ -1216,6 +1274,11 @@ class UnitBuilder:
                     err_toks = ch.toks[eq + 1:-1]
         # body transformations
         leafs: List[tuple] = []
+        for nm in fs.hoist:
+            lo, hi = find_nested_fn(body, nm, fnq)
+            nxt = body[hi + 1]
+            body = body[:lo] + [Tok(nxt.kind, nxt.text, nxt.pos, body[lo].ws)] + body[hi + 2:]
+            self.rep.rule("R21 nested fn item cut out of the enclosing body (emitted at module level)")
         if fs.kind == "fn":
             n_ret = sum(1 for t in body if t.kind == "ident" and t.text == "return")
             if fs.desugar_try:
@@ -1237,8 +1300,8 @@ class UnitBuilder:
                 body = rule_R14(body, fs.folds, self.rep, fnq)
             if fs.loopify:
                 body = rule_loopify(body, fs.loopify, self.rep, fnq)
-            for k in sorted(fs.foreach, reverse=True):
-                body = rule_R7(body, k, self.rep, fnq)
+            for k, what in sorted([(k, None) for k in fs.foreach] + [(k, f) for k, f in fs.flatten], key=lambda x: -x[0]):
+                body = rule_R7(body, k, self.rep, fnq) if what is None else rule_R22(body, k, what, self.rep, fnq)
             body = rule_R1(body, self.rep)
             body = rule_R2(body, self.rep)
             body = rule_R3(body, self.rep)
@@ -1573,6 +1636,8 @@ class UnitBuilder:
                 self.emit_const(*payload)
             elif kind == "fn":
                 self.emit_fn(payload)
+            elif kind == "expect":
+                self.check_expect(*payload)
             elif kind == "raw":
                 o.text(payload + "\n", kind="lib", file=os.path.basename(self.spec.path))
             elif kind == "wrap":
